@@ -52,10 +52,12 @@ def configs(ti):
     return out
 
 
-def flags(cfg, netmodel=None):
+def flags(cfg, w):
     f = CPU[cfg[0]] + NET[cfg[1]]
-    if netmodel:
-        f = f + ["--cfg=network/model:" + netmodel]
+    if w.get("netmodel"):
+        f = f + ["--cfg=network/model:" + w["netmodel"]]
+    if w.get("crosstraffic") is False:
+        f = f + ["--cfg=network/crosstraffic:0"]
     return f
 
 
@@ -67,12 +69,14 @@ def run_cases(ctx, cases, flavour):
     """cases = list of (workload, cfg). One harness process, one forked child per case. Returns a list of parsed logs / status."""
     text = []
     for i, (w, cfg) in enumerate(cases):
-        text.append("CASE %d %s" % (i, " ".join(flags(cfg, w.get("netmodel")))))
+        text.append("CASE %d %s" % (i, " ".join(flags(cfg, w))))
         text.append(gen.workload_text(w).rstrip("\n"))
         text.append("ENDCASE")
     res = proc.run([exe_of(flavour), "--log=root.thres:critical"], stdin="\n".join(text) + "\n", timeout=300 + 120 * len(cases),
                    env={"C19_CASE_BUDGET": "300"})
     ctx.count("processes." + flavour)
+    if os.environ.get("C19_DEBUG"):
+        print("[C19 debug] %s batch of %d: %.1fs feats=%s" % (flavour, len(cases), res.wall, cases[0][0].get("features")), flush=True)
     logs = {}
     cur = None
     for ln in res.out.splitlines():
@@ -132,7 +136,7 @@ def overlap_count(ref):
 def tail(w, cfg, ref):
     """Last field of a violation key: the open known findings this (workload, configuration) is exposed to, else its dynamic features."""
     tags = orc.exposure(w, cfg, ref)
-    if tags:
+    if tags and not os.environ.get("C19_NO_EXPOSURE"):      # C19_NO_EXPOSURE=1: used on a tree where the known findings are repaired
         return "exposed=" + "+".join(sorted(tags))
     return "feat=" + ("+".join(sorted(gen.features_used(w))) or "static")
 
@@ -146,11 +150,22 @@ def judge(ctx, w, flavour, results, corrupt=None):
         ctx.count("runs." + flavour)
         if r["status"] == "watchdog":
             ctx.inconclusive("optim harness watchdog")
-        elif r["status"] == "died":
-            ctx.violation("C19:crash:%s:%s" % (cfg_name(cfg) if cfg == REF else pair_name(cfg), tail(w, cfg, ref)),
-                          "the workload does not run to its end under %s: %s" % (cfg_name(cfg), r["detail"]),
-                          {"workload": w, "cfg": list(cfg), "flavour": flavour})
-    if ref is None or ref["status"] != "ok":
+    if ref is None or ref["status"] == "watchdog":
+        return
+    died = [cfg for cfg, r in results.items() if r["status"] == "died"]
+    if ref["status"] == "died" and len(died) == len([r for r in results.values() if r["status"] != "watchdog"]):
+        # SimGrid aborts under every configuration alike (e.g. xbt_assert of the network model): no configuration disagrees with another
+        ctx.count("workloads.not_judged_abort_under_every_configuration")
+        ctx.extra.setdefault("aborts_under_every_configuration", [])
+        if len(ctx.extra["aborts_under_every_configuration"]) < 3:
+            ctx.extra["aborts_under_every_configuration"].append({"detail": ref["detail"][-300:], "workload": wtext.splitlines()})
+        return
+    for cfg in died:
+        ctx.violation("C19:crash:%s:%s" % (cfg_name(cfg) if cfg == REF else pair_name(cfg), tail(w, cfg, ref)),
+                      "the workload does not run to its end under %s (it does under %s): %s"
+                      % (cfg_name(cfg), ", ".join(cfg_name(c) for c, r in results.items() if r["status"] == "ok") or "no configuration", results[cfg]["detail"]),
+                      {"workload": w, "cfg": list(cfg), "flavour": flavour})
+    if ref["status"] != "ok":
         return
     if orc.ambiguous_tie(ref):
         ctx.count("workloads.not_judged_control_instant_ties_with_a_completion")
